@@ -129,6 +129,9 @@ func BuildConfig(p Plan, o Opts) *Config {
 		cfg.Hosts = append(cfg.Hosts, HostIP{HopName(i), p.NextHop(i)})
 	}
 	cfg.Hosts = append(cfg.Hosts, HostIP{"sentinel.verif.test", p.Sentinel()})
+	// the names every service defines for itself also stand in the global table, with other
+	// addresses: the entry of the service counts
+	cfg.Hosts = append(cfg.Hosts, HostIP{SelfName, p.Decoy(1)}, HostIP{PeerName, p.Decoy(2)})
 	for s := 0; s < o.Services; s++ {
 		cfg.Hosts = append(cfg.Hosts, HostIP{AliasName(s), p.Listener(s, 0)})
 		cfg.Hosts = append(cfg.Hosts, HostIP{fmt.Sprintf("other%d.verif.test", s), p.Listener((s+1)%o.Services, 0)})
